@@ -364,6 +364,8 @@ type TypeOps struct {
 	// GrowCap is the capacity Go's append gives a plain []T of length l and
 	// capacity c when n more elements are appended (no library code involved).
 	GrowCap func(l, c, n int) int
+	// Probes builds the steady-state operations of this type for C18.
+	Probes func(ch, length int) []Probe
 }
 
 func mkOps[T signal.SignalTypes](name string, named bool, base int) *TypeOps {
@@ -383,6 +385,7 @@ func mkOps[T signal.SignalTypes](name string, named bool, base int) *TypeOps {
 		TypeInfo:  ti,
 		SizeOf:    int(rt.Size()),
 		GrowCap:   func(l, c, n int) int { return cap(append(make([]T, l, c), make([]T, n)...)) },
+		Probes:    typeProbes[T](name),
 		Alloc:     func(a signal.Allocator) Buf { return &gbuf[T]{b: signal.Alloc[T](a), ti: ti} },
 		PoolAlloc: func(a signal.Allocator) Pool { p := signal.PoolAlloc[T](a); return &gpool[T]{p: &p, ti: ti} },
 		MakeSl: func(n int) Sl {
@@ -447,6 +450,7 @@ type PairOps struct {
 	ReadStriped  func(src Buf, dst SS) int
 	Write        func(src Sl, dst Buf) int
 	WriteStriped func(src SS, dst Buf) int
+	Probes       func(ch, length int) []Probe
 }
 
 func mkPair[A, B signal.SignalTypes](a, b *TypeOps) *PairOps {
@@ -455,6 +459,7 @@ func mkPair[A, B signal.SignalTypes](a, b *TypeOps) *PairOps {
 		ReadStriped:  func(src Buf, dst SS) int { return signal.ReadStriped(src.(*gbuf[A]).b, dst.(*gss[B]).s) },
 		Write:        func(src Sl, dst Buf) int { return signal.Write(src.(*gsl[A]).s, dst.(*gbuf[B]).b) },
 		WriteStriped: func(src SS, dst Buf) int { return signal.WriteStriped(src.(*gss[A]).s, dst.(*gbuf[B]).b) },
+		Probes:       pairProbes[A, B](a.Name, b.Name),
 	}
 }
 
@@ -463,12 +468,14 @@ type ConvOp struct {
 	Fn   string // e.g. "FloatAsSigned"
 	S, D *TypeOps
 	Call func(src, dst Buf) int
+	// Probe builds a steady-state call on pre-allocated typed buffers (C18).
+	Probe func(ch, length int) func()
 }
 
 func (c *ConvOp) Name() string { return fmt.Sprintf("%s[%s,%s]", c.Fn, c.S.Name, c.D.Name) }
 
 func mkConv[S, D signal.SignalTypes](fn string, s, d *TypeOps, f func(*signal.Buffer[S], *signal.Buffer[D]) int) *ConvOp {
-	return &ConvOp{Fn: fn, S: s, D: d, Call: func(src, dst Buf) int { return f(src.(*gbuf[S]).b, dst.(*gbuf[D]).b) }}
+	return &ConvOp{Fn: fn, S: s, D: d, Call: func(src, dst Buf) int { return f(src.(*gbuf[S]).b, dst.(*gbuf[D]).b) }, Probe: convProbe(f)}
 }
 
 // ScaleOp is signal.Scale instantiated for one integer type.
